@@ -73,13 +73,15 @@ def box_tets(nx, ny, nz, rng=None, jitter=0.0, lengths=(1.0, 1.0, 1.0), patches=
         ax = (side - 1) // 2
         oth = (ax + 1) % 3
         nn = (nx, ny, nz)[oth]
-        cen = sum(c[oth] for c in cs) / 3.0
+        # the ridge between two coplanar patches must be a straight grid line (C02's precondition):
+        # classify by cell column, never by centroid (a centroid rule zig-zags through odd middle columns)
+        upper = min(c[oth] for c in cs) >= nn // 2 and nn >= 2
         if patches == 'one':
             fid = 1
         elif patches == 'split':
-            fid = side + (6 if cen > nn / 2.0 else 0)
+            fid = side + (6 if upper else 0)
         elif patches == 'random':
-            half = 1 if cen > nn / 2.0 else 0
+            half = 1 if upper else 0
             if (side, half) not in side_rand:
                 side_rand[(side, half)] = rng.randint(1, 12) if rng else side
             fid = side_rand[(side, half)]
